@@ -78,7 +78,7 @@ func optAlias(v ssa.Value, field string, d int) bool {
 				return
 			}
 			n++
-			if _, direct := ssau.IsFieldLoad(st.Val, optType, field); !direct && !optAlias(st.Val, field, d+1) {
+			if !optValue(st.Val, field, d+1) {
 				good = false
 			}
 		})
@@ -607,4 +607,51 @@ func c07FromElement(fn *ssa.Function, v ssa.Value, l *ssau.RangeLoop) bool {
 		return false
 	}
 	return walk(v, 0)
+}
+
+// optValue: v is SearchOptions.<field>: read directly, through an alias field,
+// or received as a parameter to which every shipped call site passes it.
+func optValue(v ssa.Value, field string, d int) bool {
+	if d > 4 {
+		return false
+	}
+	if _, direct := ssau.IsFieldLoad(v, optType, field); direct {
+		return true
+	}
+	if optAlias(v, field, d) {
+		return true
+	}
+	p := ssau.ParamOf(v)
+	if p == nil {
+		var ok bool
+		if p, ok = v.(*ssa.Parameter); !ok {
+			return false
+		}
+	}
+	g := p.Parent()
+	idx := -1
+	for i, q := range g.Params {
+		if q == p {
+			idx = i
+		}
+	}
+	node := curCtx.P.CallGraph().Nodes[g]
+	if node == nil || idx < 0 {
+		return false
+	}
+	n := 0
+	for _, e := range node.In {
+		if e.Site == nil || !isShipped(curCtx, e.Caller.Func) {
+			continue
+		}
+		args := e.Site.Common().Args
+		if e.Site.Common().IsInvoke() || idx >= len(args) {
+			return false
+		}
+		n++
+		if !optValue(args[idx], field, d+1) {
+			return false
+		}
+	}
+	return n > 0
 }
